@@ -245,14 +245,13 @@ func decodeKeyByBitmapUint8(d *structDecoder, buf []byte, cursor int64) (int64, 
 			}
 			keyIdx := 0
 			bitmap := d.keyBitmapUint8
-			start := cursor
 			for {
 				c := char(b, cursor)
 				switch c {
 				case '"':
 					fieldSetIndex := bits.TrailingZeros8(curBit)
 					field := d.sortedFieldSets[fieldSetIndex]
-					keyLen := cursor - start
+					keyLen := int64(keyIdx)
 					cursor++
 					if keyLen < field.keyLen {
 						// early match
@@ -311,14 +310,13 @@ func decodeKeyByBitmapUint16(d *structDecoder, buf []byte, cursor int64) (int64,
 			}
 			keyIdx := 0
 			bitmap := d.keyBitmapUint16
-			start := cursor
 			for {
 				c := char(b, cursor)
 				switch c {
 				case '"':
 					fieldSetIndex := bits.TrailingZeros16(curBit)
 					field := d.sortedFieldSets[fieldSetIndex]
-					keyLen := cursor - start
+					keyLen := int64(keyIdx)
 					cursor++
 					if keyLen < field.keyLen {
 						// early match
@@ -429,7 +427,7 @@ func decodeKeyByBitmapUint8Stream(d *structDecoder, s *Stream) (*structFieldSet,
 				case '"':
 					fieldSetIndex := bits.TrailingZeros8(curBit)
 					field := d.sortedFieldSets[fieldSetIndex]
-					keyLen := cursor - start
+					keyLen := int64(keyIdx)
 					cursor++
 					s.cursor = cursor
 					if keyLen < field.keyLen {
@@ -516,7 +514,7 @@ func decodeKeyByBitmapUint16Stream(d *structDecoder, s *Stream) (*structFieldSet
 				case '"':
 					fieldSetIndex := bits.TrailingZeros16(curBit)
 					field := d.sortedFieldSets[fieldSetIndex]
-					keyLen := cursor - start
+					keyLen := int64(keyIdx)
 					cursor++
 					s.cursor = cursor
 					if keyLen < field.keyLen {
